@@ -269,4 +269,19 @@ func init() {
 		}, walletAssume...),
 		Outside: "more than 2 concurrent callers, more than 2 preemptions, the three entry points not driven, real bbolt locking",
 	})
+	reg(&propDef{
+		ID: "C11",
+		Runs: []hrun{
+			{Pkg: bdbPkg, Fn: "ZzC11T2O1", Tiers: "qt", Sched: true, Witnesses: 12, Reach: []string{"c11-end", "committed", "aborted", "panicked"}, Bound: "2 managed updates (committed, failed or panicking) of 1 operation each from {put top/nested, delete, delete nested bucket, sequence, incompatible put/create} over keys a,b,c with symbolic 2-byte values; full read-back (cursor both ways, Get, Seek, nested bucket, read-only writes) after each and after reopen"},
+			{Pkg: bdbPkg, Fn: "ZzC11T1O2", Tiers: "qt", Sched: true, Witnesses: 12, Reach: []string{"c11-end", "committed", "aborted", "panicked"}, Bound: "1 update of 2 operations"},
+			{Pkg: bdbPkg, Fn: "ZzC11T2O2", Tiers: "t", Sched: true, Witnesses: 24, Reach: []string{"c11-end"}, Bound: "2 updates of 2 operations"},
+			{Pkg: bdbPkg, Fn: "ZzC11T3O1", Tiers: "t", Sched: true, Witnesses: 24, Reach: []string{"c11-end"}, Bound: "3 updates of 1 operation"},
+		},
+		Assume: []string{
+			"what is decided is the ADAPTER (walletdb.Update/View, bdb.(*db).Update/View/Begin*, transaction, bucket, cursor, convertErr) over 'mbolt', a model of bbolt's documented API contract installed with verifrt.StubFunc; bbolt's own atomicity, ordering and durability (mmap, file format, fsync) cannot be encoded and are outside",
+			"the model is validated on every run: witness paths are replayed natively, where the same harness runs against a real bbolt file including close/reopen (traces_validated_against_impl)",
+			"a native run of a counterexample in which the adapter leaks the write transaction would block forever in bbolt; such counterexamples are confirmed by re-execution in the executor",
+		},
+		Outside: "keys outside {a,b,c}, more than 3 transactions, Batch, concurrent transactions, bbolt itself",
+	})
 }
